@@ -245,7 +245,15 @@ pub fn check_case(case: &C07Case) -> (Vec<Violation>, Counters, bool, Option<Wri
   match &case.only_plan {
     Some(p) => plans.push(p.clone()),
     None => {
-      let kinds = [FailKind::StorageFull, FailKind::BrokenPipe, FailKind::PermissionDenied, FailKind::Other];
+      let kinds = [
+        FailKind::StorageFull,
+        FailKind::BrokenPipe,
+        FailKind::WouldBlock,
+        FailKind::PermissionDenied,
+        FailKind::Other,
+        FailKind::TimedOut,
+        FailKind::WouldBlock,
+      ];
       // Small trees: every offset. Large trees (the 3 % "big leaf" swarm mode,
       // 8-20 KiB: beyond the 8 KiB buffer size of std's BufWriter / typical
       // chunked copies): the offsets around every power-of-two boundary, the
@@ -267,7 +275,7 @@ pub fn check_case(case: &C07Case) -> (Vec<Violation>, Counters, bool, Option<Wri
         v
       };
       for k in offsets {
-        let fail_kind = kinds[(k % 4) as usize].clone();
+        let fail_kind = kinds[(k % 7) as usize].clone();
         // whole-buffer writes
         plans.push(WriterPlan {
           fail_at: Some(k),
@@ -493,11 +501,11 @@ impl C07 {
       },
       match rng.below(4) {
         // fails for good at k
-        0 => WriterPlan { fail_at: Some(k), max_chunk: rng.below(4) as u32, ..Default::default() },
+        0 => WriterPlan { fail_at: Some(k), max_chunk: rng.below(4) as u32, fail_kind: if rng.chance(400) { FailKind::WouldBlock } else { FailKind::StorageFull }, ..Default::default() },
         // the sink is full at k
         1 => WriterPlan { zero_at: Some(k), max_chunk: rng.below(4) as u32, ..Default::default() },
         // fails once at k, then accepts again
-        2 => WriterPlan { fail_at: Some(k), transient: true, max_chunk: rng.below(4) as u32, ..Default::default() },
+        2 => WriterPlan { fail_at: Some(k), transient: true, max_chunk: rng.below(4) as u32, fail_kind: if rng.chance(600) { FailKind::WouldBlock } else { FailKind::TimedOut }, ..Default::default() },
         // one interrupted call, whole-buffer writes otherwise
         _ => WriterPlan { eintr_every: 2, eintr_burst: 1, ..Default::default() },
       },
